@@ -1,7 +1,7 @@
 /-
 x86 back-end: the Nat-level theorems of SqiProofs.GfX86 restated over `ZMod q` with the abstraction
 `val a = a · R⁻¹` (the shapes of the `FpRefines` fields used by the GF(p²) proofs), `dom a := a < 2^B`.
-`sqr` only at lvl1 (see `square_defect_x3/x5`); `inv`, `sqrt`, `isSquare` are not provided here (they rest
+`sqr` at every level (since the repair of the lvl3/lvl5 square); `inv`, `sqrt`, `isSquare` are not provided here (they rest
 on the cited convergence of the binary GCD / on primality of q).
 -/
 import Mathlib.Data.ZMod.Basic
@@ -64,9 +64,12 @@ theorem val_mul (P : X86Params) (hP : IsLvl P) {a b : Nat} (ha : a < 2 ^ P.B) (h
     _ = (((mul P a b : Nat) : ZMod P.q) * (P.R : ZMod P.q)) * ((P.R : ZMod P.q))⁻¹ * ((P.R : ZMod P.q))⁻¹ := by ring
     _ = _ := by rw [this]; ring
 
-theorem val_sqr_x1 {a : Nat} (ha : a < 2 ^ x1.B) :
-    square x1 a < 2 ^ x1.B ∧ val x1 (square x1 a) = val x1 a * val x1 a :=
-  val_mul x1 (Or.inl rfl) ha ha
+theorem val_sqr (P : X86Params) (hP : IsLvl P) {a : Nat} (ha : a < 2 ^ P.B) :
+    square P a < 2 ^ P.B ∧ val P (square P a) = val P a * val P a := by
+  rcases hP with rfl | rfl | rfl
+  · exact val_mul x1 (Or.inl rfl) ha ha
+  · exact val_mul x3 (Or.inr (Or.inl rfl)) ha ha
+  · exact val_mul x5 (Or.inr (Or.inr rfl)) ha ha
 
 theorem val_half (P : X86Params) (hP : IsLvl P) {a : Nat} (ha : a < 2 ^ P.B) :
     half P a < 2 ^ P.B ∧ val P (half P a) * 2 = val P a := by
